@@ -97,6 +97,12 @@ type FuncVC struct {
 	bv          bool
 	iterNames   map[ssa.Value]iterNames
 	logicUsed   map[string]bool
+	logTypes    map[string]types.Type
+	axiomDone   map[*Clause]bool
+	axiomText   []string
+	assigned    map[string][]*Loc
+	skolems     map[string][][]Term
+	funCache    map[string]string
 
 	// statistics for the evidence file
 	nInstr      int
@@ -132,7 +138,7 @@ func NewFuncVC(p *Prog, fn *ssa.Function, c *Contract) *FuncVC {
 		loopOf: map[*ssa.BasicBlock]*loopInfo{}, nonNil: map[ssa.Value]bool{}, localAlloc: map[*ssa.Alloc]bool{},
 		debugRefs: map[string][]*ssa.DebugRef{}, typeIDs: map[string]int{}, boxDecl: map[string]bool{},
 		funcDecl: map[string]bool{}, oblSeq: map[string]int{}, abstracted: map[string]int{},
-		assumedUsed: map[string]bool{}, contractUse: map[string]bool{}, iterOf: map[ssa.Value]*iterInfo{}, logicUsed: map[string]bool{}}
+		assumedUsed: map[string]bool{}, contractUse: map[string]bool{}, iterOf: map[ssa.Value]*iterInfo{}, logicUsed: map[string]bool{}, logTypes: map[string]types.Type{}, axiomDone: map[*Clause]bool{}, skolems: map[string][][]Term{}, funCache: map[string]string{}}
 	if c != nil {
 		vc.watches = c.Watches
 		vc.bv = c.Mode == "bv"
@@ -382,12 +388,10 @@ func (vc *FuncVC) Run() (err error) {
 func (vc *FuncVC) assumeAllocated(t Term, typ types.Type) {
 	switch typ.Underlying().(type) {
 	case *types.Pointer, *types.Map:
-		a := vc.cur.get("alloc")
-		vc.assume(Or(Eq(t, IntLit(0)), Select(a, t, SBool)))
+		vc.assume(Or(Eq(t, IntLit(0)), vc.isAlloc(vc.cur, t)))
 	case *types.Slice:
-		a := vc.cur.get("alloc")
 		arr := T(app("s_arr", t), SInt)
-		vc.assume(Or(Eq(arr, IntLit(0)), Select(a, arr, SBool)))
+		vc.assume(Or(Eq(arr, IntLit(0)), And(vc.isAlloc(vc.cur, arr), Eq(vc.baseOf(arr), arr))))
 	}
 }
 
@@ -486,7 +490,7 @@ func (vc *FuncVC) execBlock(b *ssa.BasicBlock) {
 			env.loop = li
 			env.phiEdge = e.i
 			for _, inv := range invs {
-				vc.oblige("inv.entry", fmt.Sprintf("inv.loop%d.%s.entry", li.ordinal, inv.name), e.cond, inv.f(env), inv.src)
+				vc.oblige("inv.entry", fmt.Sprintf("inv.loop%d.%s.entry", li.ordinal, inv.name), e.cond, inv.goal(env), inv.src)
 			}
 		}
 		for _, ph := range phis {
@@ -546,7 +550,15 @@ func clauseName(c *Clause, n int) string {
 type invFn struct {
 	name string
 	src  string
-	f    func(env *Env) Term
+	f    func(env *Env) Term // as an assumption
+	g    func(env *Env) Term // as a goal (nil: same as f)
+}
+
+func (i invFn) goal(env *Env) Term {
+	if i.g != nil {
+		return i.g(env)
+	}
+	return i.f(env)
 }
 
 // loopInvs: the contract's invariants for the loop plus automatically generated
@@ -557,7 +569,27 @@ func (vc *FuncVC) loopInvs(li *loopInfo) []invFn {
 	if vc.C != nil && vc.C.Loops[li.ordinal] != nil {
 		for n, c := range vc.C.Loops[li.ordinal].Invariants {
 			c := c
-			out = append(out, invFn{clauseName(c, n), c.Src, func(env *Env) Term { return vc.evalBool(env, c) }})
+			out = append(out, invFn{clauseName(c, n), c.Src, func(env *Env) Term { return vc.evalBool(env, c) }, func(env *Env) Term { return vc.evalGoal(env, c) }})
+		}
+	}
+	if li.modset["alloc"] || li.havoc {
+		out = append(out, invFn{"auto.alloc", "allocation only grows", func(env *Env) Term {
+			a0, a := vc.entryState.get("alloc"), env.st.get("alloc")
+			if a0.S == a.S {
+				return tTrue
+			}
+			return T(fmt.Sprintf("(forall ((r Int)) (! (=> (select %s r) (select %s r)) :pattern ((select %s r))))", a0.S, a.S, a.S), SBool)
+		}, nil})
+	}
+	if vc.C != nil && vc.C.HasAssgn {
+		for _, comp := range sortedKeys(li.modset) {
+			comp := comp
+			if !vc.frameRelevant(comp) {
+				continue
+			}
+			out = append(out, invFn{"auto.frame." + comp, "frame: " + comp + " unchanged on objects allocated at entry (outside the assigns clause)", func(env *Env) Term {
+				return vc.frameFormula(comp, env.st)
+			}, nil})
 		}
 	}
 	for _, in := range li.header.Instrs {
@@ -588,7 +620,7 @@ func (vc *FuncVC) loopInvs(li *loopInfo) []invFn {
 			}
 			n := vc.term(lenV)
 			return And(Cmp("<=", IntLit(-1), p), Or(Cmp("<", p, n), Eq(p, IntLit(-1))))
-		}})
+		}, nil})
 	}
 	return out
 }
